@@ -346,13 +346,16 @@ struct FipsRaceSim : Sim {
                 // a step (the thread that runs the self-tests is descheduled, swapped out, or just slow). One run in 8 has one or two
                 // short stalls (2^8 .. 2^20 polls); a few runs per batch have a stall of more than 2^24 polls (about a second each).
                 bool big = (run_index % 16384) == 5;
+                bool vast = thorough && (run_index % 4000000) == 77; // a stall of more than 2^32 polls (about a minute): thorough tier only
+                if (vast)
+                        big = true;
                 if (big || g.chance(1, 8)) {
                         int ns = big ? 1 : 1 + (int) g.below(2);
                         for (int k = 0; k < ns; k++) {
                                 Op o;
                                 o.kind = OPK_STALL;
                                 o.a = (int64_t) g.below(1 << 16);
-                                o.b = big ? (int64_t) ((1u << 24) + (1u << 16) + g.below(1 << 16)) : (int64_t) (1ull << (8 + 4 * g.below(4))) + (int64_t) g.below(7);
+                                o.b = vast ? (int64_t) ((1ull << 32) + (1ull << 20) + g.below(1 << 16)) : big ? (int64_t) ((1u << 24) + (1u << 16) + g.below(1 << 16)) : (int64_t) (1ull << (8 + 4 * g.below(4))) + (int64_t) g.below(7);
                                 // early in the schedule, where waiters exist
                                 p.ops.insert(p.ops.begin() + g.below(std::min<size_t>(p.ops.size(), 60) + 1), o);
                         }
@@ -1110,6 +1113,19 @@ void FipsGateSim::execute(const Plan &p, Env &e, RunResult &r)
                         kat_arm(kat_target, f2 == FK_KAT_CORRUPT, f2 == FK_KAT_BOTH);
                         e.ev(mix64(OPG_INJECT, (uint64_t) f2));
                         continue;
+                }
+                if ((o.d & 0x1f) == 0x11) {
+                        // the status helper itself, called the way the C wrapper calls it, through the register-checking trampoline (C19: the C
+                        // caller's own register saves must not be what hides a clobber). Not while RUNNING (it would wait for nobody).
+                        static void *chk = libsym("asm_check_self_tests_status", false);
+                        if (chk && *g_status != ST_RUNNING) {
+                                uint32_t before = *g_status;
+                                uint64_t rv = e.call("asm_check_self_tests_status", chk, {});
+                                e.obs(0xf150, (uint32_t) rv);
+                                if (before == ST_NOT_DONE && *g_status == ST_RUNNING)
+                                        g_set_status(ST_NOT_DONE); // the helper claimed the tests for us: hand the claim back
+                                r.cov.hit("probe_status_helper_called_directly");
+                        }
                 }
                 const GEntry &ge = entries[o.a % entries.size()];
                 do_entry(ge, o, e, r);
